@@ -44,7 +44,11 @@ fn run(c: &mut Case) {
     }
     // unknown ids are never tolerated here (junk would then be a valid raw tag); the other two switches are varied
     let allow = *c.rng.pick(&[0u8, 0, crate::rd::ALLOW_OVERSIZE, crate::rd::ALLOW_HIER, crate::rd::ALLOW_HIER | crate::rd::ALLOW_OVERSIZE]);
-    let cfg = RCfg { allow, buffered: vec![], capacity: *c.rng.pick(&[None, None, Some(16), Some(64)]), max_size: MaxSz::Set(Some(1 << 20)), eof_end: true };
+    // the limit: generous, or tight — exactly the largest size the undamaged document declares (plus 0-8): recovery
+    // stretches open masters by the skipped distance, and that stretched extent is not a declared size
+    let largest = lay.iter().filter_map(|l| l.size).max().unwrap_or(0) as usize;
+    let limit = if c.rng.chance(1, 3) { largest + c.rng.usize_below(9) } else { 1 << 20 };
+    let cfg = RCfg { allow, buffered: vec![], capacity: *c.rng.pick(&[None, None, Some(16), Some(64)]), max_size: MaxSz::Set(Some(limit)), eof_end: true };
     let base = parse_slice(&inp.bytes, &RCfg { capacity: None, ..cfg.clone() });
     c.eval();
     if !base.clean() {
